@@ -36,6 +36,31 @@ func (x *Exec) registerGhosts() {
 	x.Ghosts["unboxed"] = mkVar("unboxed", "unboxed")
 	x.Ghosts["valueconst"] = ghostValueConst
 	x.Ghosts["call"] = ghostCall
+	// callfn(f): the result of calling, on env, the function value f (static type func(*Env) K)
+	x.Ghosts["callfn"] = func(f *Frame, st, old *State, idx []spec.Expr, args []spec.Expr) TV {
+		x := f.x
+		fe := x.needFam("callfn")
+		if len(args) != 1 {
+			specErr("callfn(f)")
+		}
+		key := "callfn:" + args[0].String()
+		if tv, ok := fe.memo[key]; ok {
+			return tv
+		}
+		fv := fe.atCreation(args[0])
+		sig, ok := fv.T.Underlying().(*types.Signature)
+		if !ok || sig.Results().Len() != 1 || sig.Params().Len() != 1 {
+			specErr("callfn(%s): not a func(*Env) K value", args[0])
+		}
+		callee := x.simplifyUnder(st.PC, x.scalar(fv.V, nil))
+		fe.sawCall = true
+		r := x.opaqueCall(nil, st, nil, callee, []Value{fe.env}, sig)
+		tv := TV{r, sig.Results().At(0).Type()}
+		if fe.collect {
+			fe.memo[key] = tv
+		}
+		return tv
+	}
 	x.Ghosts["funkind"] = func(f *Frame, st, old *State, idx []spec.Expr, args []spec.Expr) TV {
 		fe := f.x.needFam("funkind")
 		if len(args) != 1 {
